@@ -91,7 +91,11 @@ def check_color(kind, got, spec, what, acc, case, svgversion=None):
         if (r, g, b) != tuple(exp[:3]):
             acc.violation('colour/svg', '%s colour %r, requested %r' % (what, got[0], spec), case)
         if abs(a - exp[3] / 255.0) > 0.005:
-            acc.violation('alpha/svg', '%s opacity %r, requested alpha %d/255 = %.4f  (colour %r)' % (what, a, exp[3], exp[3] / 255.0, spec), case)
+            known = None
+            if isinstance(spec, tuple) and len(spec) == 4 and spec[:3] in ((0, 0, 0), (255, 255, 255)) and type(spec[3]) is int and spec[3] == 1 \
+                    and a == 1.0 and (r, g, b) == tuple(exp[:3]):
+                known = 'black-white-int-alpha-1-painted-opaque'
+            acc.violation('alpha/svg', '%s opacity %r, requested alpha %d/255 = %.4f  (colour %r)' % (what, a, exp[3], exp[3] / 255.0, spec), case, known=known)
     else:
         r, g, b = got[0]
         if any(abs(x - y / 255.0) > 2e-6 for x, y in zip((r, g, b), exp[:3])):
@@ -305,6 +309,9 @@ def run_case(case, acc):
                         variants += [{'compresslevel': 0}, {'compresslevel': 1, 'light': '#eee'}]
                     if fmt == 'svg':
                         variants += [{'dark': (255, 0, 0, 1)}, {'dark': (255, 0, 0, 1.0)}, {'dark': (255, 0, 0, 0)}, {'dark': (255, 0, 0, 0.0)}]
+                        # black and white with the two alpha spellings that compare equal (int 1 = 1/255, float 1.0 = opaque)
+                        variants += [{'dark': (0, 0, 0, 1)}, {'dark': (0, 0, 0, 1.0)}, {'dark': (0, 0, 0, 255)}, {'dark': (0, 0, 0), 'light': (255, 255, 255, 1)},
+                                     {'light': (255, 255, 255, 1.0)}, {'dark': (255, 255, 255, 1), 'light': (0, 0, 0, 1)}]
                         variants += [{'dark': d} for d in SVG_DARKS]
                         variants += [{'dark': '#00000010', 'svgversion': 2}, {'light': '#ffffff10'}, {'dark': '#0008', 'light': '#fff8', 'svgversion': 2.0}]
                 # geometry x colour: every (scale, border) with the plain, dark-coloured and light-filled variants; the full colour
